@@ -1,10 +1,87 @@
-(* C10 -- decision-diagram algebra agrees with pointwise semantics.  Statements only (see Proofs/ADDProofs.v). *)
+(* C10 -- decision-diagram algebra agrees with pointwise semantics.  Statements only. *)
 From Coq Require Import List Arith Bool.
-From DS Require Import Model.ADD Proofs.ADDProofs.
+From DS Require Import Model.ADD Proofs.ADDProofs Proofs.ModelCount.
 Import ListNotations.
 
+(* ---- values: adding tallies, and subtracting one from a valid tally, is component-wise and yields the single
+   invalid value exactly when a component leaves its bounds or an addend is invalid ---- *)
 Theorem C10_avalue_add : forall t x y, a_add t x y =
   match x, y with Some a, Some b => if inb t (vadd a b) then Some (vadd a b) else None | _, _ => None end.
 Proof. exact a_add_spec. Qed.
+Theorem C10_avalue_sub : forall t x y, a_sub t x y =
+  match x, y with Some a, Some b => if vle b a then (if inb t (vsub a b) then Some (vsub a b) else None) else None | _, _ => None end.
+Proof. exact a_sub_spec. Qed.
+Theorem C10_add_comm : forall t x y, a_add t x y = a_add t y x.
+Proof. exact a_add_comm. Qed.
+Theorem C10_add_assoc : forall t x y z, wt t x -> wt t y -> wt t z -> a_add t (a_add t x y) z = a_add t x (a_add t y z).
+Proof. exact a_add_assoc. Qed.
+Theorem C10_bounds_downward_closed : forall t a b, length a = length b -> (forall i, nth i a 0 <= nth i b 0) ->
+  inb t b = true -> inb t a = true.
+Proof. exact inb_down. Qed.
+
+(* value indices enumerate the domain bijectively (plain AValue: mixed radix; ATally: rank in the filtered product
+   enumeration), hence agree with equality *)
+Theorem C10_index_bijective : forall t, wf_type t ->
+  NoDup (domain t) /\
+  (forall x, In x (domain t) -> a_index t x < length (domain t) /\ nth (a_index t x) (domain t) None = x) /\
+  (forall v, inb t v = true <-> In (Some v) (domain t)).
+Proof. exact index_bijective. Qed.
+
+(* ---- diagrams ---- *)
+(* sum() evaluates to the pointwise (saturating) sum of its operands: every pair of well-typed diagrams over the same
+   variables, every assignment *)
+Theorem C10_eval_sum : forall d1 d2 x, d_type d2 = d_type d1 -> length (d_levels d1) = length (d_levels d2) ->
+  wt_levels (d_type d1) (d_levels d1) -> wt_levels (d_type d1) (d_levels d2) ->
+  inb (d_type d1) (repeat 0 (length (a_max (d_type d1)))) = true ->
+  eval (add_sum d1 d2) x = a_add (d_type d1) (eval d1 x) (eval d2 x).
+Proof. exact eval_sum. Qed.
+
+(* restrict() evaluates to the original with one variable fixed: any variable but the first ... *)
+Theorem C10_eval_restrict : forall d k v x,
+  wt_levels (d_type d) (d_levels d) -> live_from (d_type d) (d_levels d) (d_root d) ->
+  S k < length (d_levels d) -> S (length x) = length (d_levels d) ->
+  exists r, add_restrict d (S k) v = Some r /\ eval r x = eval d (firstn (S k) x ++ v :: skipn (S k) x).
+Proof. exact eval_restrict. Qed.
+(* ... and the first one, when there are at least two variables *)
+Theorem C10_eval_restrict_first : forall d v x l0 l1 rest,
+  d_levels d = l0 :: l1 :: rest -> wt_levels (d_type d) (d_levels d) ->
+  child (getnode (d_type d) l0 (d_root d)) v < length l1 -> x <> [] ->
+  exists r, add_restrict d 0 v = Some r /\ eval r x = eval d (v :: x).
+Proof. exact eval_restrict_first. Qed.
+(* finding F12: with a single variable the code raises; the model has no result *)
+Theorem C10_refuted_F12 : forall d l0 v, d_levels d = [l0] -> add_restrict d 0 v = None.
+Proof. exact restrict_only_variable. Qed.
+
+(* modelcount() is the histogram over all assignments of the evaluated value: every well-typed diagram whose
+   reachable nodes are live and in range, of any shape and size *)
+Theorem C10_modelcount : forall d,
+  wf_type (d_type d) -> wt_levels (d_type d) (d_levels d) -> live_w (d_type d) (diameter d) (d_levels d) (d_root d) ->
+  add_modelcount d = histogram (d_type d) (map (eval d) (bmasks (length (d_levels d)))).
+Proof. exact modelcount_histogram. Qed.
+
+(* evaluation is the saturating sum of the edge values along the path: clip of the plain total *)
+Theorem C10_eval_is_saturating_path_sum : forall d x, wf_type (d_type d) -> wt_levels (d_type d) (d_levels d) ->
+  length x = length (d_levels d) ->
+  eval d x = match path_sum (d_type d) (d_levels d) (d_root d) x with Some s => clip (d_type d) s | None => None end.
+Proof. exact eval_as_path. Qed.
+
+Example C10_nonvacuous :
+  let t := tally 2 1 2 in
+  let d := mkADD t [0; 1] 0 [[mkNode true 0 0 (Some [0; 1; 0; 0; 0]) (Some [1; 0; 0; 0; 1])];
+                             [mkNode true 0 0 (Some [0; 0; 0; 0; 0]) (Some [1; 0; 1; 0; 0])]] in
+  add_modelcount d = histogram t (map (eval d) (bmasks 2)) /\ sum_nat (add_modelcount d) = 4 /\
+  nth (a_index t (Some [1; 0; 1; 0; 0])) (add_modelcount d) 0 = 0 /\ eval d [true; true] = Some [2; 0; 1; 0; 1].
+Proof. vm_compute. repeat split. Qed.
 
 Print Assumptions C10_avalue_add.
+Print Assumptions C10_avalue_sub.
+Print Assumptions C10_add_comm.
+Print Assumptions C10_add_assoc.
+Print Assumptions C10_bounds_downward_closed.
+Print Assumptions C10_index_bijective.
+Print Assumptions C10_eval_sum.
+Print Assumptions C10_eval_restrict.
+Print Assumptions C10_eval_restrict_first.
+Print Assumptions C10_refuted_F12.
+Print Assumptions C10_modelcount.
+Print Assumptions C10_eval_is_saturating_path_sum.
